@@ -20,8 +20,8 @@ Lemma own_create_inr : forall k idopt tag a unk s s' id,
 Proof.
   intros k idopt tag a unk s s' id H. unfold own_create in H.
   destruct (required k && is_omit (arg_of a k)); [discriminate|].
-  unfold argval. destruct (validate (arg_of a k)) as [e|v]; [discriminate|].
-  destruct unk; [discriminate|]. unfold sql_insert in H.
+  destruct unk; [discriminate|].
+  unfold argval. destruct (validate (arg_of a k)) as [e|v]; [discriminate|]. unfold sql_insert in H.
   destruct (notnull k && isnone v); [discriminate|].
   destruct (taken v None (tab s k)); [discriminate|]. cbn [orb] in H.
   destruct (has _ (tab s k)) eqn:Hh; [discriminate|].
